@@ -241,7 +241,7 @@ impl<F: OneFlavour> OneSut<F> {
 
 impl<F: OneFlavour> Drop for OneSut<F> {
     fn drop(&mut self) {
-        self.futs.clear();
+        self.futs.drop_live();
         self.ch.drop_sender();
         while self.ch.drop_receiver() {}
         self.ch.destroy();
@@ -413,6 +413,27 @@ impl<F: OneFlavour> Sut for OneSut<F> {
 
     fn may_alloc(&self, e: &Value) -> bool {
         e["op"] == "destroy"
+    }
+
+    fn cleanup_ops(&self) -> Vec<Value> {
+        if self.dead {
+            return Vec::new();
+        }
+        let mut v = Vec::new();
+        for s in self.futs.live_slots() {
+            v.push(json!({"op": "drop", "r": s}));
+        }
+        let (hs, hr) = self.ch.handles();
+        if F::SHARED {
+            for _ in 0..hs {
+                v.push(json!({"op": "drop_sender"}));
+            }
+            for _ in 0..hr {
+                v.push(json!({"op": "drop_receiver"}));
+            }
+        }
+        v.push(json!({"op": "destroy"}));
+        v
     }
 
     fn random_op(&self, rng: &mut Rng) -> Value {
